@@ -36,6 +36,15 @@ P = {
  "C10": ("E4", "bounded-exhaustive enumeration of descriptor programs and templates + independent small/large-item walker",
          "Every descriptor kind over per-field value alphabets (full products for two-field kinds, all min<=max pairs, all flag sets, 13 address spaces x 5 access sizes), every template of <=3 descriptors over 11 kinds and k identical descriptors for every k up to a 4200-byte payload: bytes must equal the ACPI 6.4 reference encoding, length fields must frame the payload, the Buffer size must equal the payload, and a walk by the descriptors' own lengths must tile it and end in 79 00.",
          "Values range over the stated alphabets; min>max and unrepresentable sizes belong to C18.", "DESIGN.md section 4 C10"),
+ "C11": ("E1", "stateright explicit-state closure per option-bearing structure, transition function = the real builder",
+         "For each of 17 option-bearing structures (SRAT affinities, PPTT processor and cache nodes, CFMWS restrictions, TCPA server flags, GICC x 3 statuses, GIC MSI frame, HMAT locality x 4 types) the reachable set of serialised structures under all option builders is closed (all subsets, orders, repetitions); every transition is executed on the real builder and the whole structure is compared with a spec-derived reference, so a wrong bit, an inverted gate flag or a byte moving outside the governed field is seen. FADT: full closure over all 25 flag values (2^24 states, thorough; three 9-flag windows + all pairs, quick) and a closure over profile/enable/dsdt/firmware_ctrl modes x 6 flags. Constructor booleans (MADT enable states, RIMT/HEST) over all tuples.",
+         "Closure is complete for the listed option alphabets (one or two values per valued option). Repeated enum-valued setters are judged with the property's union semantics.", "DESIGN.md section 4 C11"),
+ "C12": ("E1", "stateright explicit-state closure over the real SLIT / HMAT locality structure against a last-writer reference map",
+         "SLIT with 1..3 localities (4 and 5 thorough) under every ordered pair incl. diagonal x {10,20,255}, and HMAT latency/bandwidth structures of every shape up to 3x3 (4x3, 3x4 thorough; incl. 1xn, nx1, non-square) under every cell x {0,0x1234,0xFFFF}, list setters and options: the reachable state space is closed with no depth bound, every transition is judged (cell -> last value, mirror cell, untouched cells, table checksum, structure inside an HMAT).",
+         "Shapes and values beyond those listed are not enumerated; out-of-range indices are not judged.", "DESIGN.md section 4 C12"),
+ "C13": ("E1", "stateright depth-bounded search over operation sequences on the real Sdt against a Vec<u8> reference model",
+         "All sequences over typed/slice appends, typed/slice writes at every offset 0..len+1 and usize::MAX, and sink pushes to depth 2 (full alphabet, initial lengths 36/37/40), over a reduced offset set to depth 3 (quick) / 4 (thorough), and from lengths 255 and 65534 so that appends carry Length across 256 and 65536; each transition replays the history on a fresh real table and compares as_slice, len and the serialisation with a plain byte-vector model; refused writes must leave the table bit-identical.",
+         "Two values per width; depth-bounded. A write into the Length field is modelled as a plain write.", "DESIGN.md section 4 C13"),
  "C15": ("E4", "bounded-exhaustive enumeration of paired construction paths, byte equality",
          "Scope::raw vs Scope::new for 6 path shapes x every body size 0..4200 and around 2^20 and every child list <=3; PackageBuilder vs Package for every element count 0..255, all lists <=3 and nested; &str vs String for every length 0..300; usize vs u64 over the structured integer set.",
          "Equality of the two paths only; correctness of the bytes is C06/C07.", "DESIGN.md section 4 C15"),
